@@ -10,7 +10,7 @@ import os
 import subprocess
 import zlib
 
-from .. import clih, common, explore, mcharness, vmp
+from .. import bigdata, clih, common, explore, mcharness, vmp
 
 PROP = "C12"
 MOD = "vf.checks.c12"
@@ -365,6 +365,48 @@ def run_task(task):
     return res
 
 
+BIG = ["paired-r2-cut-at-34-percent", "single-bad-record-xz-output", "single-gz-cut-at-60-percent"]
+
+
+def run_big(name):
+    """Faults in inputs of realistic size with the DEFAULT --buffer-size and real processes (pipes that fill, more than one chunk per
+    worker, an external compressor on the output side): the run must end with a non-zero status and a message."""
+    wd = clih.fresh_dir("c12big-" + name)
+    i1, i2 = os.path.join(wd, "r1.fq"), os.path.join(wd, "r2.fq")
+    if name.startswith("paired"):
+        bigdata.paired(i1, i2, n=30000)
+        data = open(i2, "rb").read()
+        with open(i2, "wb") as fh:
+            fh.write(data[: int(len(data) * 0.34) + 7])
+        argv = ["-j", "3", "-a", f"a1={bigdata.TRUSEQ1}", "-A", f"a2={bigdata.TRUSEQ2}", "-o", os.path.join(wd, "o1.fq"), "-p",
+                os.path.join(wd, "o2.fq"), i1, i2]
+    elif name.startswith("single-bad"):
+        bigdata.paired(i1, i2, n=60000)
+        lines = open(i1).read().split("\n")
+        k = (len(lines) // 4 // 4) * 4 + 3
+        lines[k] = lines[k][:-1]
+        clih.write_text(i1, "\n".join(lines))
+        argv = ["-j", "3", "-a", f"a1={bigdata.TRUSEQ1}", "-o", os.path.join(wd, "out.fastq.xz"), i1]
+    else:
+        bigdata.paired(i1, i2, n=30000)
+        gz = gzip.compress(open(i1, "rb").read(), compresslevel=1)
+        p = os.path.join(wd, "r1.fq.gz")
+        with open(p, "wb") as fh:
+            fh.write(gz[: int(len(gz) * 0.6)])
+        argv = ["-j", "3", "-a", f"a1={bigdata.TRUSEQ1}", "-o", os.path.join(wd, "out.fq"), p]
+    fail = None
+    try:
+        r = common.run_group([common.PY, "-m", "cutadapt"] + argv, timeout=180)
+        if r.returncode == 0:
+            fail = "malformed/truncated input of realistic size but exit status 0"
+        elif not r.stderr.decode(errors="replace").strip():
+            fail = f"exit status {r.returncode} without an error message"
+    except subprocess.TimeoutExpired:
+        fail = "hang: real multi-core processes did not terminate within 180 s"
+    clih.rmtree(wd)
+    return dict(name=name, failure=fail)
+
+
 def plan(tier):
     F = _faults(tier)
     T = []
@@ -423,6 +465,12 @@ def run(tier):
             R.violation(f"{r['kind'].split('-')[0]}-{mode}:{fail.split(':')[0][:50]}", fail,
                         dict(fault=r["kind"], offset=r["off"], mode=r["task"][2], schedule=list(choices), tier=tier,
                              fault_id=r["task"][1], files={k: (v[:60].decode('latin-1') + '...') for k, v in f["files"].items()}))
+    big = common.pmap(MOD, "run_big", BIG)
+    for r in big:
+        executions += 1
+        if r["failure"]:
+            R.violation(f"realistic-size:{r['name']}", r["failure"], dict(big=r["name"]))
+    R.coverage["realistic_size_faults"] = BIG
     R.coverage.update(dict(faults=len(F), malformed_faults=len(malformed_faults), wellformed_faults=len(wellformed_faults),
                            executions_by_fault_kind_and_mode={f"{k[0]}|{k[1]}": v for k, v in sorted(kinds.items())},
                            schedule_states=states, schedule_transitions=transitions, caps_hit=caps))
@@ -444,6 +492,10 @@ def replay(path):
         v = json.load(fh)
     print(json.dumps(v, indent=1)[:2500])
     c = v["case"]
+    if "big" in c:
+        r = run_big(c["big"])
+        print("replayed:", r["failure"] or "fine")
+        return 1 if r["failure"] else 0
     mode = c["mode"]
     what = mode if isinstance(mode, str) else tuple(mode)
     if what and what[0] == "virtual":
